@@ -47,7 +47,9 @@ def translators(repo):
     if here not in sys.path:
         sys.path.insert(0, here)
     import c17_frozen
-    return {"C17_Gen": c17_frozen.generate(repo)}
+    import c17_src
+    return {"C17_Gen": c17_frozen.generate(repo),      # tables: dict mutators vs FrozenDict / OneToOne
+            "C17_Src": c17_src.generate(repo)}         # OneToOne method bodies transcribed into Gallina
 
 
 # --------------------------------------------------------------------------
